@@ -1,18 +1,498 @@
-"""C01 (placeholder while under construction)."""
-from .. import regex, levels
+"""C01 Validator accepts exactly the structurally conformant data-unit
+histories (structural part).
+
+The iff over histories is behaviour and is not decided.  Decided: the
+preconditions of every structure check hold on all paths (a), the
+header-first/EOS-last axiom's side conditions (b), the repeated-sequence-header
+byte comparison brackets all header reads (c), every structure rule keeps a
+reachable conditional raise site (d), the level ordering patterns mean what
+they say under the automaton construction the code performs (e), and the
+bookkeeping each rule depends on is updated on every path (f).
+"""
+import ast
+from collections import OrderedDict
+
+from ..core import AnalysisError, const_str, dotted, norm, short, subscript_key
+from ..report import Result
+from ..mustflow import MustFlow, FS
+from .. import analyses, regex, levels, nfa_model, tables
+
+STRUCTURE_EXCEPTIONS = OrderedDict([
+    ("BadParseInfoPrefix", "parse info prefix"),
+    ("BadParseCode", "parse code is a known value"),
+    ("InconsistentNextParseOffset", "next parse offset equals the true distance"),
+    ("MissingNextParseOffset", "next parse offset present where mandatory"),
+    ("InvalidNextParseOffset", "next parse offset not inside the parse info"),
+    ("NonZeroNextParseOffsetAtEndOfSequence", "next parse offset 0 at end of sequence"),
+    ("InconsistentPreviousParseOffset", "previous parse offset equals the true distance"),
+    ("NonZeroPreviousParseOffsetAtStartOfSequence", "previous parse offset 0 at start of sequence"),
+    ("GenericInvalidSequence", "sequence header first, end of sequence last"),
+    ("LevelInvalidSequence", "level's data-unit ordering pattern"),
+    ("ParseCodeNotAllowedInProfile", "profile-permitted parse codes"),
+    ("ParseCodeNotSupportedByVersion", "version-permitted parse codes"),
+    ("NonConsecutivePictureNumbers", "consecutive picture numbers mod 2^32"),
+    ("EarliestFieldHasOddPictureNumber", "even first field"),
+    ("OddNumberOfFieldsInSequence", "whole frames"),
+    ("FragmentedPictureRestarted", "fragmented picture: no restart before completion"),
+    ("PictureNumberChangedMidFragmentedPicture", "fragmented picture: same picture number"),
+    ("TooManySlicesInFragmentedPicture", "fragmented picture: initial zero-slice fragment / no extra slices"),
+    ("FragmentSlicesNotContiguous", "fragmented picture: contiguous raster-order slices"),
+    ("SequenceContainsIncompleteFragmentedPicture", "fragmented picture complete before the sequence ends"),
+    ("PictureInterleavedWithFragmentedPicture", "no interleaving of pictures with a fragmented picture"),
+    ("SequenceHeaderChangedMidSequence", "byte-identical repeated sequence headers"),
+    ("MajorVersionTooHigh", "major_version minimality"),
+])
+
+STRUCTURE_MODULES = ("decoder.stream", "decoder.fragment_syntax", "decoder.assertions")
+
+
+def check(repo, tier="quick"):
+    res = Result("C01")
+    res.explanation = (
+        "Structure-rule analysis of the validator: StateFlow preconditions of every check in stream/fragment/assertion code, "
+        "axiom A1 side conditions, must-flow bracket of the sequence-header recording, reachability of a conditional raise "
+        "site for each of the 23 structure rules, language of each level ordering pattern under the extracted automaton "
+        "construction, and must-pass-through of the bookkeeping updates the rules rely on."
+    )
+    res.rule("C01.a", "every state read made by a structure check is definitely assigned on every path (StateFlow)")
+    res.rule("C01.b", "axiom A1 side conditions: sequence header first, end of sequence last")
+    res.rule("C01.c", "repeated sequence header is recorded around all of its reads and compared byte for byte")
+    res.rule("C01.d", "each structure rule of the statement keeps a reachable, conditional raise site")
+    res.rule("C01.e", "level ordering patterns: symbols are parse-code names, admit sequence_header first, and implemented language = reference language")
+    res.rule("C01.f", "bookkeeping the rules depend on is updated on every normal path (offsets, picture numbers, fragment counters, level matcher)")
+
+    sf = analyses.validator_stateflow(repo)
+    rule_a(repo, res, sf)
+    for cid, ok, where, detail in analyses.a1_conditions(repo):
+        res.check(ok, "C01.b", cid, where, detail, by="checked")
+    rule_c(repo, res)
+    rule_d(repo, res, sf)
+    rule_e(repo, res)
+    rule_f(repo, res)
+    res.floor("C01.a", 40)
+    res.floor("C01.b", 6)
+    res.floor("C01.c", 4)
+    res.floor("C01.d", len(STRUCTURE_EXCEPTIONS))
+    res.floor("C01.e", 6)
+    res.floor("C01.f", 8)
+    res.assumptions = [
+        "the arithmetic of each comparison (offset distances, picture-number wrap, raster order) is not decided",
+        "the recursive-descent pattern parser reads patterns as the reference grammar does",
+        "spec-pinned lines are as the standard's pseudocode",
+    ]
+    res.trusted = ["vcheck.regex reference engine", "axiom A1 (side conditions machine-checked)", "vc2_data_tables ParseCodes"]
+    return res
 
 
 def level_patterns_admit_sequence_header(repo):
+    """Used by C02.5 to discharge `assert matcher.match_symbol("sequence_header")`.
+    Decided under the *implemented* construction (extracted gadgets/edges)."""
     bad = []
     pats = levels.level_patterns(repo)
+    gadgets, _ = nfa_model.extract_gadgets(repo)
+    sem = nfa_model.add_transition_semantics(repo)
     for lvl, pat in pats.items():
         try:
-            d = regex.language(pat, alphabet=sorted(regex.symbols_of(regex.parse(pat)) | {"sequence_header"}) + [regex.OTHER])
+            a = regex.parse(pat)
         except ValueError as e:
             bad.append("level %d: pattern does not parse (%s)" % (lvl, e))
             continue
-        if "sequence_header" not in regex.first_set(d):
+        alpha = sorted(regex.symbols_of(a) | {"sequence_header"}) + [regex.OTHER]
+        d = regex.to_dfa(regex.build(a, gadgets, bidirectional_eps=sem["eps_reverse"]), alpha)
+        # match_symbol succeeds iff some transition exists (liveness is not required by the assert)
+        if "sequence_header" not in d.trans[0]:
             bad.append("level %d pattern cannot start with sequence_header" % lvl)
     if bad:
         return False, "; ".join(bad)
-    return True, "all %d level patterns admit sequence_header as first symbol" % len(pats)
+    return True, "all %d level patterns admit sequence_header as first symbol (implemented construction)" % len(pats)
+
+
+def rule_a(repo, res, sf):
+    groups = OrderedDict()
+    for r in sf.reads:
+        modn = r.mod.name
+        if not (any(modn.endswith(x) for x in STRUCTURE_MODULES) or r.fn in ("picture_header", "sequence_header")):
+            continue
+        g = groups.setdefault((r.mod.rel, r.fn, r.key), dict(ok=True, bad=None, by=set()))
+        if not r.ok and r.kind != "excepted":
+            g["ok"] = False
+            g["bad"] = g["bad"] or r
+        if r.by:
+            g["by"].add(r.by)
+    for (rel, fn, key), g in groups.items():
+        where = "%s:%s" % (rel, fn)
+        if g["ok"]:
+            res.ok("C01.a", "%s:state[%s]" % (fn, key), where, by=",".join(sorted(g["by"])))
+        else:
+            r = g["bad"]
+            res.bad("C01.a", "%s:state[%s]" % (fn, key), where, "precondition of a structure check: state[%r] may be undefined here, so a malformed history is not reported as a conformance error" % key, path=list(r.stack))
+    # locals of the structure-check functions (D1 class of defect)
+    from ..locals_da import LocalsDA
+
+    for spec in ("decoder.stream:parse_info", "decoder.stream:parse_sequence", "decoder.fragment_syntax:fragment_header", "decoder.assertions:assert_picture_number_incremented_as_expected", "decoder.assertions:assert_major_version_is_minimal", "decoder.sequence_header:sequence_header"):
+        m, fn = repo.func(spec)
+        fails = LocalsDA(fn).run()
+        where = "%s:%s" % (m.rel, fn.name)
+        if fails:
+            for f in fails:
+                res.bad("C01.a", "%s:local:%s" % (fn.name, f.name), where, "local %r may be unbound when the check fires" % f.name)
+        else:
+            res.ok("C01.a", "%s:locals" % fn.name, where, by="definite assignment")
+
+
+def rule_c(repo, res):
+    m, fn = repo.func("decoder.sequence_header:sequence_header")
+    where = "%s:sequence_header" % m.rel
+    cg = analyses.callgraph(repo)
+    # functions that (transitively) read the bitstream
+    readers = set()
+    target = cg.get("decoder.io:read_bit").id
+    for fid, fr in cg.funcs.items():
+        if not fr.mod.name.startswith("vc2_conformance.decoder") and not fr.mod.name.startswith("vc2_conformance.pseudocode"):
+            continue
+        if target in cg.reachable([fid[len(repo.PKG) + 1:]] if False else [fid], follow_unknown_methods=False):
+            readers.add(fr.node.name)
+    problems = []
+    nreads = [0]
+    rec_var = [None]
+
+    def on(node, st):
+        if isinstance(node, ast.If):
+            t = node.test
+            if isinstance(t, ast.Compare) and isinstance(t.ops[0], ast.NotIn) and const_str(t.left) == "_last_sequence_header_bytes" and "fin" in st.must:
+                # `if key not in state: state[key] = recording` -- on the other branch the
+                # key already holds the (equal) bytes of the earlier header
+                for b in node.body:
+                    if isinstance(b, ast.Assign) and any(subscript_key(x, "state") == "_last_sequence_header_bytes" for x in b.targets) and rec_var[0] is not None and dotted(b.value) == rec_var[0]:
+                        return st.add("stored")
+            return st
+        if isinstance(node, ast.Assign):
+            if isinstance(node.value, ast.Call) and dotted(node.value.func) == "record_bitstream_finish" and isinstance(node.targets[0], ast.Name):
+                rec_var[0] = node.targets[0].id
+            if any(subscript_key(t, "state") == "_last_sequence_header_bytes" for t in node.targets):
+                if rec_var[0] is not None and dotted(node.value) == rec_var[0] and "fin" in st.must:
+                    return st.add("stored")
+            return st
+        f = dotted(node.func)
+        if f == "record_bitstream_start":
+            if "rec" in st.may:
+                problems.append("recording started twice")
+            if "read" in st.may:
+                problems.append("a bitstream read precedes record_bitstream_start")
+            return st.add("rec")
+        if f == "record_bitstream_finish":
+            if "rec" not in st.must:
+                problems.append("record_bitstream_finish not dominated by record_bitstream_start")
+            return st.add("fin")
+        if f in readers:
+            nreads[0] += 1
+            if "rec" not in st.must:
+                problems.append("bitstream read %s() not dominated by record_bitstream_start" % f)
+            if "fin" in st.may:
+                problems.append("bitstream read %s() after record_bitstream_finish" % f)
+            return st.add("read")
+        return st
+
+    mf = MustFlow(fn, on, node_types=(ast.Call, ast.Assign, ast.If)).run()
+    ex = mf.normal_exit_state()
+    res.check(not problems and nreads[0] >= 3, "C01.c", "sequence_header:recording-brackets-reads", where, "; ".join(sorted(set(problems))) or "only %d reads seen" % nreads[0], by="start dominates and finish follows all %d reading calls" % nreads[0])
+    res.check(ex is not None and "fin" in ex.must, "C01.c", "sequence_header:finish-on-every-exit", where, "a normal exit does not pass record_bitstream_finish", by="must-pass-through")
+    res.check(ex is not None and "stored" in ex.must, "C01.c", "sequence_header:bytes-stored", where, "the recorded bytes are not stored into state['_last_sequence_header_bytes'] on every normal exit", by="must-pass-through")
+    # comparison under the `in state` guard
+    ok = False
+    for n in ast.walk(fn):
+        if isinstance(n, ast.If) and isinstance(n.test, ast.Compare) and isinstance(n.test.ops[0], ast.In) and const_str(n.test.left) == "_last_sequence_header_bytes" and dotted(n.test.comparators[0]) == "state":
+            for i in ast.walk(n):
+                if isinstance(i, ast.If) and isinstance(i.test, ast.Compare) and len(i.test.ops) == 1 and isinstance(i.test.ops[0], ast.NotEq):
+                    sides = [i.test.left, i.test.comparators[0]]
+                    has_state = any(subscript_key(s, "state") == "_last_sequence_header_bytes" for s in sides)
+                    has_rec = any(rec_var[0] is not None and dotted(s) == rec_var[0] for s in sides)
+                    raises = any(isinstance(b, ast.Raise) and isinstance(b.exc, ast.Call) and dotted(b.exc.func) == "SequenceHeaderChangedMidSequence" for b in i.body)
+                    if has_state and has_rec and raises:
+                        ok = True
+    res.check(ok, "C01.c", "sequence_header:byte-comparison", where, "no `if recorded != state['_last_sequence_header_bytes']: raise SequenceHeaderChangedMidSequence` under an `in state` guard", by="!= comparison of the recording with the stored bytes raises")
+    # finish returns every recorded byte: record_bitstream_finish returns the bytearray it read from state
+    im, fin = repo.func("decoder.io:record_bitstream_finish")
+    rets = [n for n in ast.walk(fin) if isinstance(n, ast.Return)]
+    var = None
+    for s in fin.body:
+        if isinstance(s, ast.Assign) and subscript_key(s.value, "state") == "_recorded_bytes" and isinstance(s.targets[0], ast.Name):
+            var = s.targets[0].id
+    res.check(bool(rets) and var is not None and all(dotted(r.value) == var for r in rets), "C01.c", "record_bitstream_finish:returns-recording", "%s:record_bitstream_finish" % im.rel, "record_bitstream_finish does not return state['_recorded_bytes']", by="returns the recorded bytearray")
+    rm, rb = repo.func("decoder.io:read_byte")
+    appends = any(
+        isinstance(n, ast.Call) and isinstance(n.func, ast.Attribute) and n.func.attr == "append" and subscript_key(n.func.value, "state") == "_recorded_bytes" and n.args and subscript_key(n.args[0], "state") == "current_byte"
+        for n in ast.walk(rb)
+    )
+    res.check(appends, "C01.c", "read_byte:records-consumed-byte", "%s:read_byte" % rm.rel, "read_byte does not append the consumed byte to state['_recorded_bytes']", by="append(state['current_byte']) under the recording guard")
+
+
+def raise_sites(repo, sf):
+    """exception class name -> list of (module, function, node, kind)."""
+    out = {}
+    helpers = {}
+    hm = repo.mod("decoder.assertions")
+    for name, fn in hm.funcs.items():
+        params = [a.arg for a in fn.args.args]
+        if "exception_type" in params:
+            helpers[name] = params.index("exception_type")
+    for (modname, fname) in sf.functions:
+        m = repo.modules[modname]
+        fn = m.funcs.get(fname)
+        if fn is None:
+            continue
+        for n in ast.walk(fn):
+            if isinstance(n, ast.Raise) and n.exc is not None:
+                t = n.exc.func if isinstance(n.exc, ast.Call) else n.exc
+                nm = dotted(t)
+                if nm:
+                    out.setdefault(nm, []).append((m, fn, n, "raise"))
+            elif isinstance(n, ast.Call) and isinstance(n.func, ast.Name) and n.func.id in helpers:
+                idx = helpers[n.func.id]
+                if idx < len(n.args):
+                    nm = dotted(n.args[idx])
+                    if nm:
+                        out.setdefault(nm, []).append((m, fn, n, "via " + n.func.id))
+    return out
+
+
+def reachable_nodes(fn):
+    seen = set()
+
+    def on(node, st):
+        seen.add(id(node))
+        return st
+
+    MustFlow(fn, on, node_types=(ast.Call, ast.Raise)).run()
+    return seen
+
+
+def rule_d(repo, res, sf):
+    exc = tables.ExcTable(repo)
+    sites = raise_sites(repo, sf)
+    cache = {}
+    for cls, clause in STRUCTURE_EXCEPTIONS.items():
+        where = "vc2_conformance/decoder/exceptions.py:%s" % cls
+        if cls not in exc.classes or not exc.is_sub(cls):
+            res.bad("C01.d", "rule:%s" % cls, where, "exception class for rule %r vanished" % clause)
+            continue
+        good = []
+        for m, fn, node, kind in sites.get(cls, []):
+            if id(fn) not in cache:
+                cache[id(fn)] = reachable_nodes(fn)
+            if id(node) not in cache[id(fn)]:
+                continue
+            # conditional: enclosed by an If / loop / try inside its function
+            p = getattr(node, "_parent", None)
+            cond = False
+            while p is not None and p is not fn:
+                if isinstance(p, (ast.If, ast.While, ast.For, ast.Try, ast.ExceptHandler)):
+                    cond = True
+                p = getattr(p, "_parent", None)
+            if kind.startswith("via") or cond:
+                good.append("%s:%s (%s)" % (m.rel, fn.name, kind))
+        res.check(bool(good), "C01.d", "rule:%s" % cls, where, "rule %r: no reachable conditional raise site of %s in code reachable from parse_stream (sites seen: %d)" % (clause, cls, len(sites.get(cls, []))), by="; ".join(good[:3]))
+
+
+def rule_e(repo, res):
+    pcs = repo.ext.enums["ParseCodes"]
+    pats = levels.level_patterns(repo)
+    gadgets, _ = nfa_model.extract_gadgets(repo)
+    sem = nfa_model.add_transition_semantics(repo)
+    lv = repo.ext.enums.get("Levels", {})
+    where = levels.CSV
+    # every level enum value has a row (LEVEL_SEQUENCE_RESTRICTIONS[state["level"]] cannot miss)
+    missing = sorted(set(lv.values()) - set(pats))
+    res.check(not missing, "C01.e", "levels:rows-cover-enum", where, "Levels values without a sequence-restriction row: %s" % missing, by="%d Levels values all have rows" % len(lv))
+    by_text = OrderedDict()
+    for lvl, pat in pats.items():
+        by_text.setdefault(" ".join(pat.split()), []).append(lvl)
+    m_, fn_, st_, generic = __import__("vcheck.a1", fromlist=["generic_pattern"]).generic_pattern(repo)
+    items = [("levels %s" % lvls, text) for text, lvls in by_text.items()]
+    if generic is not None:
+        items.append(("generic (decoder/stream.py:parse_sequence)", " ".join(generic.split())))
+    for label, text in items:
+        key = "pattern:%s" % text
+        try:
+            a = regex.parse(text)
+        except ValueError as e:
+            res.bad("C01.e", key, where, "%s: pattern does not parse: %s" % (label, e))
+            continue
+        syms = regex.symbols_of(a)
+        unknown = sorted(s for s in syms if s not in pcs)
+        res.check(not unknown, "C01.e", "symbols:%s" % text, where, "%s: symbols that are not ParseCodes member names (can never match): %s" % (label, unknown), by="%d symbols are ParseCodes names" % len(syms))
+        alpha = sorted(set(pcs) | syms)
+        d_ref = regex.to_dfa(regex.build(a), alpha)
+        d_impl = regex.to_dfa(regex.build(a, gadgets, bidirectional_eps=sem["eps_reverse"]), alpha)
+        w1, w2 = regex.compare(d_impl, d_ref)
+        det = ""
+        if w1 is not None:
+            det = "%s: the matcher accepts the data-unit sequence %s, which the ordering pattern forbids" % (label, list(w1))
+        elif w2 is not None:
+            det = "%s: the matcher rejects the data-unit sequence %s, which the ordering pattern allows" % (label, list(w2))
+        res.check(w1 is None and w2 is None, "C01.e", key, where, det, by="%s: implemented language = reference language over the %d parse codes" % (label, len(alpha)))
+        if label.startswith("levels"):
+            res.check("sequence_header" in d_impl.trans[0], "C01.e", "first:%s" % text, where, "%s: pattern cannot start with sequence_header" % label, by="sequence_header is a valid first symbol")
+
+
+def cond_raises(repo, m, node, excname, depth=0):
+    """node is an `if ...: raise X(...)` statement, or a call to a resolvable
+    function whose body contains one (check moved into a helper)."""
+    if isinstance(node, ast.If):
+        for b in node.body + node.orelse:
+            if isinstance(b, ast.Raise) and isinstance(b.exc, ast.Call) and dotted(b.exc.func) == excname:
+                return node.test
+            if isinstance(b, ast.If):
+                t = cond_raises(repo, m, b, excname, depth)
+                if t is not None:
+                    return node.test
+        return None
+    if isinstance(node, ast.Call) and isinstance(node.func, ast.Name) and depth < 2:
+        sym = repo.resolve(m.name, node.func.id)
+        if sym is not None and sym.kind == "func":
+            sm = repo.modules[sym.mod]
+            for s_ in sym.node.body:
+                if isinstance(s_, ast.If):
+                    t = cond_raises(repo, sm, s_, excname, depth + 1)
+                    if t is not None:
+                        return t
+    return None
+
+
+def rule_f(repo, res):
+    # parse_info: _last_parse_info_offset stored on every normal exit, from the tell() taken right after byte_align
+    m, fn = repo.func("decoder.stream:parse_info")
+    where = "%s:parse_info" % m.rel
+    var = [None]
+
+    def on(node, st):
+        if isinstance(node, ast.Assign):
+            if isinstance(node.targets[0], ast.Name) and isinstance(node.value, ast.Subscript) and isinstance(node.value.value, ast.Call) and dotted(node.value.value.func) == "tell" and "aligned" in st.must and "read" not in st.may:
+                var[0] = node.targets[0].id
+                return st
+            if any(subscript_key(t, "state") == "_last_parse_info_offset" for t in node.targets) and var[0] and dotted(node.value) == var[0]:
+                return st.add("offset_stored")
+            return st
+        f = dotted(node.func)
+        if f == "byte_align":
+            return st.add("aligned")
+        if f in ("read_uint_lit", "read_nbits", "read_bit", "read_uint", "read_bool"):
+            return st.add("read")
+        if f == "assert_parse_code_in_sequence" and len(node.args) > 1 and subscript_key(node.args[1], "state") == "_level_sequence_matcher":
+            return st.add("level_match")
+        return st
+
+    mf = MustFlow(fn, on, node_types=(ast.Call, ast.Assign)).run()
+    ex = mf.normal_exit_state()
+    res.check(ex is not None and "offset_stored" in ex.must, "C01.f", "parse_info:last-offset-stored", where, "state['_last_parse_info_offset'] is not updated (from the offset taken after byte_align, before any read) on every normal exit", by="must-pass-through")
+    # level matcher consulted whenever present
+    lvl_ok = False
+    for n in ast.walk(fn):
+        if isinstance(n, ast.If) and isinstance(n.test, ast.Compare) and isinstance(n.test.ops[0], ast.In) and const_str(n.test.left) == "_level_sequence_matcher":
+            for c in ast.walk(n):
+                if isinstance(c, ast.Call) and dotted(c.func) == "assert_parse_code_in_sequence" and len(c.args) > 2 and subscript_key(c.args[0], "state") == "parse_code" and subscript_key(c.args[1], "state") == "_level_sequence_matcher" and dotted(c.args[2]) == "LevelInvalidSequence":
+                    lvl_ok = not n.orelse
+    # the guard must sit at the top level of parse_info (not under another condition)
+    top = [s for s in fn.body if isinstance(s, ast.If) and isinstance(s.test, ast.Compare) and const_str(s.test.left) == "_level_sequence_matcher"]
+    res.check(lvl_ok and bool(top), "C01.f", "parse_info:level-matcher-consulted", where, "the level matcher is not fed every parse code once it exists", by="top-level `if '_level_sequence_matcher' in state: assert_parse_code_in_sequence(...)`")
+    # level matcher created once per sequence, under a `not in state` guard, from the level's table cell
+    pm, pp = repo.func("decoder.sequence_header:parse_parameters")
+    ok = False
+    for n in ast.walk(pp):
+        if isinstance(n, ast.If) and isinstance(n.test, ast.Compare) and isinstance(n.test.ops[0], ast.NotIn) and const_str(n.test.left) == "_level_sequence_matcher":
+            for s in n.body:
+                if isinstance(s, ast.Assign) and subscript_key(s.targets[0], "state") == "_level_sequence_matcher" and isinstance(s.value, ast.Call) and dotted(s.value.func) == "Matcher":
+                    arg = s.value.args[0]
+                    if isinstance(arg, ast.Attribute) and arg.attr == "sequence_restriction_regex" and isinstance(arg.value, ast.Subscript) and dotted(arg.value.value) == "LEVEL_SEQUENCE_RESTRICTIONS" and subscript_key(arg.value.slice, "state") == "level":
+                        ok = True
+    res.check(ok, "C01.f", "parse_parameters:level-matcher-from-table", "%s:parse_parameters" % pm.rel, "the level matcher is not built (once, under a `not in state` guard) from LEVEL_SEQUENCE_RESTRICTIONS[state['level']].sequence_restriction_regex", by="guarded construction from the level's own table cell")
+    # end-of-sequence check on the level matcher
+    sm, seq = repo.func("decoder.stream:parse_sequence")
+    ok = any(
+        isinstance(n, ast.If) and isinstance(n.test, ast.Compare) and isinstance(n.test.ops[0], ast.In) and const_str(n.test.left) == "_level_sequence_matcher" and n in seq.body and any(isinstance(c, ast.Call) and dotted(c.func) == "assert_parse_code_sequence_ended" and subscript_key(c.args[0], "state") == "_level_sequence_matcher" for c in ast.walk(n))
+        for n in seq.body
+    )
+    res.check(ok, "C01.f", "parse_sequence:level-matcher-ended", "%s:parse_sequence" % sm.rel, "the level matcher is not asked whether the sequence may end", by="top-level guarded assert_parse_code_sequence_ended")
+    # picture numbers
+    am, apn = repo.func("decoder.assertions:assert_picture_number_incremented_as_expected")
+
+    def on2(node, st):
+        if isinstance(node, ast.Assign):
+            for t in node.targets:
+                k = subscript_key(t, "state")
+                if k == "_last_picture_number" and subscript_key(node.value, "state") == "picture_number":
+                    return st.add("last_stored")
+                if k == "_last_picture_number_offset":
+                    return st.add("last_off_stored")
+        elif isinstance(node, ast.AugAssign):
+            if subscript_key(node.target, "state") == "_num_pictures_in_sequence" and isinstance(node.op, ast.Add) and isinstance(node.value, ast.Constant) and node.value.value == 1:
+                if "counted" in st.may:
+                    return st.add("counted", "double")
+                return st.add("counted")
+        return st
+
+    mf = MustFlow(apn, on2, node_types=(ast.Assign, ast.AugAssign)).run()
+    ex = mf.normal_exit_state()
+    res.check(ex is not None and {"last_stored", "last_off_stored", "counted"} <= ex.must and "double" not in ex.may, "C01.f", "picture-number:bookkeeping", "%s:%s" % (am.rel, apn.name), "every normal exit must record the picture number and its offset and count the picture exactly once", by="must-pass-through, once")
+    # mask: (last + 1) & 0xFFFFFFFF
+    ok = any(isinstance(n, ast.BinOp) and isinstance(n.op, ast.BitAnd) and isinstance(n.right, ast.Constant) and n.right.value == 0xFFFFFFFF and isinstance(n.left, ast.BinOp) and isinstance(n.left.op, ast.Add) and subscript_key(n.left.left, "state") == "_last_picture_number" and isinstance(n.left.right, ast.Constant) and n.left.right.value == 1 for n in ast.walk(apn))
+    res.check(ok, "C01.f", "picture-number:wrap", "%s:%s" % (am.rel, apn.name), "expected picture number is not (state['_last_picture_number'] + 1) & 0xFFFFFFFF", by="(last + 1) & 0xFFFFFFFF")
+    # picture_header calls the assertion on every path; fragment_header exactly on the zero-slice arm
+    phm, ph = repo.func("decoder.picture_syntax:picture_header")
+
+    def on3(node, st):
+        if dotted(node.func) == "assert_picture_number_incremented_as_expected":
+            return st.add("pn")
+        return st
+
+    ex = MustFlow(ph, on3).run().normal_exit_state()
+    res.check(ex is not None and "pn" in ex.must, "C01.f", "picture_header:number-checked", "%s:picture_header" % phm.rel, "picture_header does not check the picture number on every path", by="must-pass-through")
+    fm, fh = repo.func("decoder.fragment_syntax:fragment_header")
+    zero_arm = other = 0
+    for n in ast.walk(fh):
+        if isinstance(n, ast.If) and isinstance(n.test, ast.Compare) and subscript_key(n.test.left, "state") == "fragment_slice_count" and isinstance(n.test.ops[0], ast.Eq) and isinstance(n.test.comparators[0], ast.Constant) and n.test.comparators[0].value == 0:
+            for c in ast.walk(ast.Module(body=n.body, type_ignores=[])):
+                if isinstance(c, ast.Call) and dotted(c.func) == "assert_picture_number_incremented_as_expected":
+                    zero_arm += 1
+            for c in ast.walk(ast.Module(body=n.orelse, type_ignores=[])):
+                if isinstance(c, ast.Call) and dotted(c.func) == "assert_picture_number_incremented_as_expected":
+                    other += 1
+    total = sum(1 for c in ast.walk(fh) if isinstance(c, ast.Call) and dotted(c.func) == "assert_picture_number_incremented_as_expected")
+    res.check(zero_arm == 1 and other == 0 and total == 1, "C01.f", "fragment_header:number-checked-on-first-fragment", "%s:fragment_header" % fm.rel, "the picture-number check must run exactly on the fragment_slice_count == 0 arm (found %d there, %d elsewhere)" % (zero_arm, total - zero_arm), by="once, on the zero-slice arm")
+    # fragment counters
+    dm, fd = repo.func("decoder.fragment_syntax:fragment_data")
+    dec = [n for n in ast.walk(fd) if isinstance(n, ast.AugAssign) and subscript_key(n.target, "state") == "_fragment_slices_remaining" and isinstance(n.op, ast.Sub) and isinstance(n.value, ast.Constant) and n.value.value == 1]
+    inc = [n for n in ast.walk(fd) if isinstance(n, ast.AugAssign) and subscript_key(n.target, "state") == "fragment_slices_received" and isinstance(n.op, ast.Add)]
+    same_block = bool(dec) and bool(inc) and getattr(dec[0], "_parent", None) is getattr(inc[0], "_parent", None) and isinstance(dec[0]._parent, ast.For)
+    res.check(len(dec) == 1 and same_block, "C01.f", "fragment_data:remaining-decremented-per-slice", "%s:fragment_data" % dm.rel, "state['_fragment_slices_remaining'] is not decremented once per received slice (next to the fragment_slices_received increment)", by="-= 1 in the per-slice loop body")
+    im, ifs = repo.func("decoder.fragment_syntax:initialize_fragment_state")
+    ok = any(isinstance(n, ast.Assign) and subscript_key(n.targets[0], "state") == "_fragment_slices_remaining" and isinstance(n.value, ast.BinOp) and isinstance(n.value.op, ast.Mult) and {subscript_key(n.value.left, "state"), subscript_key(n.value.right, "state")} == {"slices_x", "slices_y"} for n in ifs.body)
+    res.check(ok, "C01.f", "initialize_fragment_state:remaining-initialised", "%s:initialize_fragment_state" % im.rel, "_fragment_slices_remaining is not set to slices_x * slices_y for a new fragmented picture", by="slices_x * slices_y")
+    # parse_sequence: interleave check dominates picture_parse; incomplete check on every normal exit
+    problems = []
+
+    def on4(node, st):
+        for name, tag in (("PictureInterleavedWithFragmentedPicture", "interleave_checked"), ("SequenceContainsIncompleteFragmentedPicture", "incomplete_checked")):
+            t = cond_raises(repo, sm, node, name)
+            if t is not None and "_fragment_slices_remaining" in norm(t):
+                return st.add(tag)
+        if isinstance(node, ast.Call) and dotted(node.func) == "picture_parse":
+            if "interleave_checked" not in st.must:
+                problems.append("picture_parse not dominated by the interleaving check")
+        return st
+
+    mf = MustFlow(seq, on4, node_types=(ast.Call, ast.If)).run()
+    ex = mf.normal_exit_state()
+    res.check(not problems, "C01.f", "parse_sequence:interleave-check-dominates-picture", "%s:parse_sequence" % sm.rel, "; ".join(problems), by="dominance")
+    res.check(ex is not None and "incomplete_checked" in ex.must, "C01.f", "parse_sequence:incomplete-fragment-check-at-end", "%s:parse_sequence" % sm.rel, "a sequence can end normally without the incomplete-fragmented-picture check", by="must-pass-through")
+    # odd-field and version-minimality checks on every normal exit
+    def on5(node, st):
+        if isinstance(node, ast.Call) and dotted(node.func) == "assert_major_version_is_minimal":
+            return st.add("minimal")
+        t = cond_raises(repo, sm, node, "OddNumberOfFieldsInSequence")
+        if t is not None:
+            return st.add("odd_fields")
+        return st
+
+    ex = MustFlow(seq, on5, node_types=(ast.Call, ast.If)).run().normal_exit_state()
+    res.check(ex is not None and {"minimal", "odd_fields"} <= ex.must, "C01.f", "parse_sequence:end-of-sequence-checks", "%s:parse_sequence" % sm.rel, "odd-field-count and major_version minimality checks must run on every normal exit", by="must-pass-through")
